@@ -592,6 +592,7 @@ func cliPhase() {
 	wg.Wait()
 	run.Set("cli_invocations", len(cases))
 	brokenSinks(root)
+	optionSinks(root, pgpFP)
 }
 
 // brokenSinks: the audit file sink cannot take a record - its directory is
